@@ -17,7 +17,7 @@ import time
 from fractions import Fraction
 
 VERIF = os.path.dirname(os.path.dirname(os.path.abspath(__file__)))
-LEAN = os.path.join(VERIF, "lean")
+LEAN = os.environ.get("GWCS_LEAN", os.path.join(VERIF, "lean"))   # (override: scratch copy while developing)
 REPO = os.environ.get("GWCS_REPO", "/repo")
 EVIDENCE = os.path.join(VERIF, "evidence")
 REPLAYS = os.path.join(VERIF, "replays")
